@@ -24,7 +24,7 @@ REQUIRE = {"hist_cases": 80, "two_collection_cases": 25, "recording_metric_calls
            "unnormalized_cases": 20, "values_beyond_last_edge_cases": 8, "float_metric_cases": 8, "bins0_cases": 20,
            "table_cases": 20, "table_alpha_only": 3, "table_beta_only": 3, "table_both": 5, "legacy_tuple_cases": 3,
            "maxseqs_cases": 20, "maxseqs_subsampled": 10, "maxseqs_table_cases": 4, "background_checked": 1,
-           "d0_count_checked": 20}
+           "d0_count_checked": 20, "distances_ge_256_cases": 4}
 SHARDS = {"quick": 4, "thorough": 16}
 
 
@@ -122,6 +122,8 @@ def k_hist(ctx, seqs, bins, normalize, pseudocount, metric=None, seqs2=None, con
         ctx.count("values_beyond_last_edge_cases")
     if fname == "float":
         ctx.count("float_metric_cases")
+    if any(d >= 256 for d in dists):
+        ctx.count("distances_ge_256_cases")
     if len(set(dists)) >= 2:
         ctx.nontriv([seqs, seqs2, bins, normalize, pseudocount, metric])
     ctx.sample("hist" + (":two" if seqs2 is not None else ""), {"seqs": seqs[:8], "seqs2": seqs2 and seqs2[:8], "bins": bins,
@@ -262,7 +264,8 @@ def k_maxseqs(ctx, seqs, maxseqs, seqs2=None, table=False, np_seed=0):
     log = []
     if table:
         ctx.count("maxseqs_table_cases")
-        a = pd.DataFrame({"CDR3B": seqs, "tag": [f"r{i}" for i in range(len(seqs))]}, index=[f"i{i}" for i in range(len(seqs))])
+        a = pd.DataFrame({"CDR3B": seqs, "tag": [f"r{i}" for i in range(len(seqs))]},
+                         index=[f"i{i}" for i in range(len(seqs))] if np_seed % 2 else [f"i{i % 3}" for i in range(len(seqs))])
         b = None if seqs2 is None else pd.DataFrame({"CDR3B": seqs2, "tag": [f"q{i}" for i in range(len(seqs2))]},
                                                     index=[f"j{i}" for i in range(len(seqs2))])
         rec = make_recorder("lev", log, table_col="CDR3B")
@@ -294,13 +297,14 @@ def k_maxseqs(ctx, seqs, maxseqs, seqs2=None, table=False, np_seed=0):
             ctx.count("maxseqs_subsampled")
         if table:
             got = [str(v) for v in coll["CDR3B"].tolist()]
-            labels = list(coll.index)
-            if len(set(labels)) != len(labels) or any(l not in oobj.index for l in labels):
-                ctx.violation(key + ":not-a-row-subset", "sub-sampled table is not a subset of the input rows", labels[:10], list(oobj.index)[:10])
+            tags = coll["tag"].tolist()
+            orig_rows = dict(zip(oobj["tag"].tolist(), oobj["CDR3B"].tolist()))
+            if len(set(tags)) != len(tags) or any(t not in orig_rows for t in tags):
+                ctx.violation(key + ":not-a-row-subset", "sub-sampled table is not a subset of the input rows (a row repeated or unknown)", tags[:10], list(orig_rows)[:10])
                 return
-            for l in labels:
-                if list(coll.loc[l]) != list(oobj.loc[l]):
-                    ctx.violation(key + ":row-content-changed", "a sub-sampled row differs from the input row", list(coll.loc[l]), list(oobj.loc[l]))
+            for t, v in zip(tags, got):
+                if orig_rows[t] != v:
+                    ctx.violation(key + ":row-content-changed", "a sub-sampled row differs from the input row", [t, v], [t, orig_rows[t]])
                     return
         else:
             got = [str(v) for v in list(coll)]
@@ -400,6 +404,14 @@ def generate(tier, seed):
     for i in range(120 if thorough else 10):
         seqs = G.repertoire(rng, rng.randint(10, 80))
         yield "hist", {"seqs": seqs, "bins": None, "normalize": i % 2 == 0, "pseudocount": 0.5 if i % 4 == 0 else 0.0}, i < 3
+    # long strings: default metric, distances beyond 255 (no wrap-around into low bins)
+    for i in range(40 if thorough else 6):
+        la = [300, 400, 256, 270, 513, 380][i % 6]
+        longs = ["A" * la, "C" * (la - 7), G.rand_string(rng, "ACDEFGHIKL", la, la), "CASSF", G.rand_string(rng, "MNPQRSTVWY", 260, 260)]
+        p = {"seqs": longs, "bins": [None, [0, 10, 100, 255, 256, 300, 600], [0, 256, 512, 1024]][i % 3], "normalize": i % 2 == 0, "pseudocount": 0.0}
+        if i % 2:
+            p["seqs2"] = ["CASF", "W" * 290]
+        yield "hist", p, True
     # tables
     cells = ["CAF", "CAAF", "CAW", "CF", "CASF", "CAAAF", ""]
     n_tab = 1500 if thorough else 70
